@@ -549,9 +549,9 @@ Proof.
   - rewrite Hidx. cbn [bind]. eexists; reflexivity.
 Qed.
 
-Lemma factor_loop_ok cn vs ns idx t :
+Lemma factor_loop_ok fx cn vs ns idx t :
   has_col t cn = true -> length vs + idx <= length ns ->
-  exists t', factor_loop cn vs (Some ns) idx t = Ok t'.
+  exists t', factor_loop fx cn vs (Some ns) idx t = Ok t'.
 Proof.
   revert idx t. induction vs as [|v vs IH]; intros idx t Hc Hl; cbn [factor_loop]; [eexists; reflexivity|].
   destruct (index_of_some cn (cols t) Hc) as [i Hi]. rewrite Hi.
@@ -1122,16 +1122,19 @@ Definition optionals_present (st : opstate) : bool :=
   | _ => true
   end.
 
+Definition not_factor (st : opstate) : bool :=
+  match st with FactorColumn _ _ _ => false | _ => true end.
+
+(* outside factor_column (whose flags differ on n/a cells, C17-F10) the table was the same *)
 Lemma do_op_same_when_present st t :
-  optionals_present st = true -> applicable_core st t = true ->
+  not_factor st = true -> optionals_present st = true -> applicable_core st t = true ->
   snd (do_op no_fixes st t) = snd (do_op all_fixes st t).
 Proof.
-  destruct st; cbn [optionals_present applicable_core do_op snd]; intros Hp Ha; try reflexivity.
+  destruct st; cbn [not_factor optionals_present applicable_core do_op snd]; intros Hnf Hp Ha; try reflexivity.
   - (* reorder: the table is the same, only the state differs *)
     unfold do_reorder_columns. cbv zeta.
     destruct (filter (fun c => negb (has_col t c)) column_order); [|destruct (negb ignore_missing)]; reflexivity.
-  - destruct factor_values as [[|v vs]|]; try discriminate.
-    destruct factor_names as [[|n ns]|]; try discriminate. reflexivity.
+  - discriminate.
   - destruct match_columns as [l|]; [|discriminate].
     apply andb_true_iff in Ha as [Ha _]. apply andb_true_iff in Ha as [Hsd _].
     apply negb_true_iff in Hsd. subst set_durations.
@@ -1146,7 +1149,14 @@ Lemma do_op_total_partial st t :
   optionals_present st = true -> applicable_core st t = true ->
   exists t', snd (do_op no_fixes st t) = Ok t'.
 Proof.
-  intros Hp Ha. rewrite (do_op_same_when_present st t Hp Ha). apply do_op_total_core. exact Ha.
+  intros Hp Ha. destruct (not_factor st) eqn:Enf.
+  - rewrite (do_op_same_when_present st t Enf Hp Ha). apply do_op_total_core. exact Ha.
+  - destruct st; try discriminate. cbn [optionals_present applicable_core do_op snd] in *.
+    destruct factor_values as [[|v vs]|]; try discriminate.
+    destruct factor_names as [[|n ns]|]; try discriminate.
+    apply andb_true_iff in Ha as [Hc Hlen]. cbn [input_data_ok] in Hlen. apply Nat.eqb_eq in Hlen.
+    unfold do_factor_column. cbn [no_fixes fx_factor].
+    apply factor_loop_ok; [exact Hc | cbn [length]; lia].
 Qed.
 
 (* the translated accesses of _split_rows are NOT covered by the schema of a
